@@ -3741,7 +3741,11 @@ fn parse_group<'a>(
     let mut errors = term.errors.clone();
 
     // Check if we found the right parenthesis.
-    if !found {
+    if found {
+        // We found it, but possibly only after skipping over some unexpected tokens. In that case
+        // the macro above recorded an error about the first unexpected token.
+        errors.append(&mut phony_errors);
+    } else {
         // We didn't find it. Report an error.
         errors.push(Rc::new(move |source_path, source_contents| {
             // Compute the source range for the left parenthesis.
